@@ -7,12 +7,12 @@ import FsicModel.Basic
   greedy `\s*`, optional lazy group that is preferred over the empty alternative, `.` = anything but '\n');
 * `resolve_indexes`: split on ':', more than three parts → ValueError, one part → `'[' + str(index) + ']'`,
   otherwise `f'[{start}:{stop}:{step}]'` with the `stop += 1` rule applied **whenever `stop` is a Python int** —
-  also for a purely positional stop, and *not* for the NumPy integer that the fallback locator returns;
+  also for a purely positional stop, and *not* for a NumPy integer (bounds of a pandas partial-string slice);
 * `resolve_index_in_span`: no backtick → `int(label.strip())` (ValueError unless an integer literal); backtick →
   strip, strip backticks, look the text up as a string label, then as an `int` label, else KeyError;
 * the span is a parameter (`Span`): membership and location.  Instances for list-like spans (first occurrence,
-  Python int), NumPy-array spans (fallback locator: unique match, NumPy integer) and a table (pandas: `in` and
-  `get_loc` are inputs);
+  Python int), NumPy-array spans (fallback locator: unique match, `int(positions[0])`) and a table (pandas: `in`
+  and `get_loc` are inputs);
 * the namespace: helpers (deep copy of the package table unless the caller passes `builtins`), then variables,
   then caller locals, by `dict.update`.
 
@@ -30,8 +30,8 @@ inductive Label where
   | other (id : Nat)
   deriving DecidableEq, Repr
 
-/-- What `_locate_period_in_span` returns.  `pyInt` = the integer is a Python `int` (list/range `.index`, pandas
-    `get_loc`), as opposed to a NumPy integer (fallback locator, bounds of a pandas partial-string slice). -/
+/-- What `_locate_period_in_span` returns.  `pyInt` = the integer is a Python `int` (list/range `.index`, the
+    fallback locator, pandas `get_loc`), as opposed to a NumPy integer (bounds of a pandas partial-string slice). -/
 inductive Loc where
   | pos (i : Int) (pyInt : Bool)
   | slice (start stop : Int) (pyInt : Bool)
@@ -59,9 +59,9 @@ def listSpan (xs : List Label) : Span :=
   ⟨fun l => xs.contains l, fun l => locOfIndex true (firstIndex l xs)⟩
 
 /-- NumPy-array spans: `in` is `(arr == period).any()`, the fallback locator wants exactly one match and returns
-    a NumPy integer. -/
+    `int(positions[0])`. -/
 def numpySpan (xs : List Label) : Span :=
-  ⟨fun l => xs.contains l, fun l => if countEq l xs = 1 then locOfIndex false (firstIndex l xs) else .keyError⟩
+  ⟨fun l => xs.contains l, fun l => if countEq l xs = 1 then locOfIndex true (firstIndex l xs) else .keyError⟩
 
 /-- pandas spans: both answers are inputs. -/
 def tableSpan (tbl : List (Label × Bool × Loc)) : Span :=
